@@ -459,7 +459,7 @@ func stdlibHeapPure(name string) bool {
 		"strings.", "strconv.", "unicode.", "unicode/utf8.", "path.", "path/filepath.Join", "path/filepath.Base", "path/filepath.Dir", "path/filepath.Clean",
 		"path/filepath.Ext", "path/filepath.IsAbs", "path/filepath.Rel", "path/filepath.Split", "path/filepath.Match", "(time.", "time.", "math.", "math/bits.", "bytes.Equal", "bytes.Index", "bytes.HasPrefix",
 		"bytes.HasSuffix", "bytes.Contains", "bytes.LastIndex", "bytes.TrimSpace", "bytes.Compare", "reflect.DeepEqual", "sort.SearchInts", "sort.SearchStrings", "sort.Search",
-		"os.Getenv", "os.Getuid", "os.Geteuid", "os.Getpid", "os.IsNotExist", "os.IsExist", "os.IsPermission", "regexp.MustCompile", "(*regexp.Regexp).", "encoding/json.Marshal", "encoding/base64.", "(*encoding/base64.", "crypto/", "hash/", "(*sync.Mutex).", "(*sync.RWMutex).", "sync/atomic.", "(*sync/atomic.",
+		"os.Getenv", "os.Getuid", "os.Geteuid", "os.Getpid", "os.IsNotExist", "os.IsExist", "os.IsPermission", "regexp.MustCompile", "(*regexp.Regexp).", "encoding/json.Marshal", "encoding/base64.", "(*encoding/base64.", "crypto/", "hash/", "(*sync.Mutex).", "(*sync.RWMutex).", "(*sync.Cond).", "(*sync.WaitGroup).", "(*sync.Once).", "sync/atomic.", "(*sync/atomic.",
 		"unicode/utf8.Valid", "os/user.", "os.Stat", "os.Lstat", "os.Readlink", "os.ReadFile", "io/ioutil.ReadFile", "os.Remove", "os.RemoveAll", "os.Rename", "os.Symlink", "os.MkdirAll", "os.Mkdir", "os.Chmod", "os.Chown",
 		"path/filepath.Glob", "path/filepath.EvalSymlinks", "syscall.", "log.", "(*log.", "net/url.", "net/http.Error"} {
 		if strings.HasPrefix(name, p) {
